@@ -271,7 +271,7 @@ def _handle_block_end(line_num: int, violation: "Violation", state: _BlockState)
 
 def _parse_ignore_start_rules(line: str) -> set[str]:
     """Extract rule names from ignore-start directive."""
-    match = re.search(r"ignore-start\s+([^\s#]+(?:\s+[^\s#]+)*)", line)
+    match = re.search(r"ignore-start\s+([^\s#]+(?:\s+[^\s#]+)*)", line, re.IGNORECASE)
     if match:
         rules_text = match.group(1).strip()
         rules = [r.strip() for r in re.split(r"[,\s]+", rules_text) if r.strip()]
